@@ -176,6 +176,7 @@ CASES = [
     ("m-c11-eof-returns", "C11", "fire", "xdis/unmarshal.py", "        byte1 = ord(self.fp.read(1))\n", "        byte1 = self.fp.read(1)\n        if not byte1:\n            return None\n        byte1 = ord(byte1)\n", "end-of-input-raises"),
     ("s-c11-eof-raises", "C11", "silent", "xdis/unmarshal.py", "        byte1 = ord(self.fp.read(1))\n", "        byte1 = self.fp.read(1)\n        if not byte1:\n            raise EOFError(\"marshal data too short\")\n        byte1 = ord(byte1)\n", ""),
     ("m-c04-stale-hasjabs", "C04", "fire", "xdis/opcodes/base.py", "    if op in loc[\"hasjabs\"]:\n        loc[\"hasjabs\"].remove(op)\n", "", "jump-category"),
+    ("m-c10-long-wrapper-py3", "C10", "fire", "xdis/unmarshal.py", "        to_long = long if self.version_tuple < (3, 0) else int", "        to_long = long", "kind@"),
     # ---------------- whole-package reformat, one case per property
     ("s-c01-reformat", "C01", "silent", "*REFORMAT*", "", "", ""),
     ("s-c02-reformat", "C02", "silent", "*REFORMAT*", "", "", ""),
